@@ -17,7 +17,10 @@ Local Open Scope Z_scope.
 Definition quiet (s : st) (e : event) : Prop :=
   match e with
   | EPop _ | ECancel _ => False
-  | ETick _ _ k | EClock k => k = clock s
+  | EClock k => k = clock s
+  | ETick pid _ k =>      (* a periodic action is called only while its subscription is not disposed *)
+      k = clock s /\ exists pi, nth_error (pers s) pid = Some pi /\ p_disposed pi = false
+  | EPDispose pid => exists pi, nth_error (pers s) pid = Some pi /\ p_disposed pi = true
   | _ => True
   end.
 
@@ -35,7 +38,11 @@ Inductive prim : st -> st -> Prop :=
   | P_cancel s r : prim s (cancel_id s r)
   | P_enabled s b : prim s (set_enabled s b)
   | P_clock s c : clock s <= c -> prim s (set_clock s c)
-  | P_pers s ps : prim s (set_pers s ps)
+  | P_per_add s pi : prim s (set_pers s (pers s ++ [pi]))
+  | P_per_upd s pid pi pi' :      (* period and action are fixed; a disposed subscription stays disposed *)
+      nth_error (pers s) pid = Some pi -> p_period pi' = p_period pi -> p_fn pi' = p_fn pi ->
+      (p_disposed pi = true -> p_disposed pi' = true) ->
+      prim s (set_pers s (set_nth pid pi' (pers s)))
   | P_log s e : quiet s e -> prim s (add_log s e)
   | P_pop s it q' newclk bumped :
       queue s = it :: q' -> pop_clock_ok s it newclk bumped ->
@@ -75,13 +82,22 @@ Proof.
   apply steps_trans with (add_log s (ENote n)); [apply add_log_steps; exact I | apply IH].
 Qed.
 
+Lemma nth_error_set_nth {A} (x y : A) : forall l n, nth_error l n = Some y -> nth_error (set_nth n x l) n = Some x.
+Proof.
+  induction l as [|z t IH]; intros [|n] H; simpl in *; try discriminate; auto.
+Qed.
+
+Lemma add_notes_pers ns : forall s, pers (add_notes s ns) = pers s /\ clock (add_notes s ns) = clock s.
+Proof. induction ns as [|n t IH]; intro s; simpl; [split; reflexivity|]. apply (IH (add_log s (ENote n))). Qed.
+
 Lemma dispose_per_steps s pid : steps s (dispose_per s pid).
 Proof.
-  unfold dispose_per. destruct (nth_error (pers s) pid) as [pi|]; [|apply steps_refl].
+  unfold dispose_per. destruct (nth_error (pers s) pid) as [pi|] eqn:Hn; [|apply steps_refl].
   destruct (p_disposed pi); [apply steps_refl|].
   eapply steps_snoc; [|apply P_cancel].
-  eapply steps_snoc; [|apply P_log; exact I].
-  apply steps_one. apply P_pers.
+  apply steps_log.
+  - apply steps_one. eapply P_per_upd; eauto.
+  - simpl. eexists. split; [eapply nth_error_set_nth; eassumption | reflexivity].
 Qed.
 
 Lemma exec_cmd_steps s c : steps s (bstate (exec_cmd s c)).
@@ -95,7 +111,7 @@ Proof.
     { apply steps_log; [apply steps_log; [apply steps_refl | exact I] | exact I]. }
     destruct v; assumption.
   - apply add_log_steps; exact I.
-  - eapply steps_snoc; [apply steps_one, P_pers | apply P_enq].
+  - eapply steps_snoc; [apply steps_one, P_per_add | apply P_enq].
   - apply dispose_per_steps.
 Qed.
 
@@ -117,13 +133,15 @@ Qed.
 Lemma invoke_steps s p : steps s (bstate (invoke s p)).
 Proof.
   destruct p as [l b|pid stt]; simpl; [apply exec_body_steps|].
-  destruct (nth_error (pers s) pid) as [pi|]; [|apply steps_refl].
-  destruct (p_disposed pi); [apply steps_refl|].
-  assert (H1 : steps s (add_log s (ETick pid stt (clock s)))) by (apply add_log_steps; reflexivity).
+  destruct (nth_error (pers s) pid) as [pi|] eqn:Hn; [|apply steps_refl].
+  destruct (p_disposed pi) eqn:Hd; [apply steps_refl|].
+  assert (H1 : steps s (add_log s (ETick pid stt (clock s)))).
+  { apply add_log_steps. simpl. split; [reflexivity|]. exists pi. split; assumption. }
   destruct (plookup (p_fn pi) stt) as [ns st'|ns|ns e|ns e v]; simpl.
   - eapply steps_snoc; [|apply P_enq].
-    eapply steps_snoc; [|apply P_pers].
-    eapply steps_trans; [exact H1 | apply add_notes_steps].
+    eapply steps_snoc; [eapply steps_trans; [exact H1 | apply add_notes_steps]|].
+    eapply P_per_upd with (pi := pi); simpl; auto; try (intro; congruence).
+    destruct (add_notes_pers ns (add_log s (ETick pid stt (clock s)))) as [-> _]. exact Hn.
   - eapply steps_trans; [|apply resched_disposed_steps].
     eapply steps_trans; [exact H1 | apply add_notes_steps].
   - eapply steps_trans; [|apply dispose_per_steps].
@@ -347,6 +365,7 @@ Proof.
     unfold item_ok; simpl. intros y (A & B & C & D). repeat split; lia.
   - split; assumption.
   - split; assumption.
+  - split; assumption.
   - rewrite H in HS, HF. inversion HS; subst. inversion HF; subst.
     pose proof (pop_clock_ge _ _ _ _ H0) as Hge.
     split; simpl; [assumption|].
@@ -382,6 +401,7 @@ Proof.
     + specialize (H2 a Ha). rewrite Forall_forall in H2. auto.
   - destruct (cancel_id_fields s r) as (A & B & C & D & E & F & G).
     unfold Inv2. rewrite cancel_id_pops, B, G. repeat split; assumption.
+  - repeat split; assumption.
   - repeat split; assumption.
   - repeat split; assumption.
   - repeat split; assumption.
@@ -423,6 +443,7 @@ Proof.
   - repeat split; assumption.
   - repeat split; simpl; try assumption.
     eapply Forall_impl; [|exact H1]. simpl. intros a (A & B & C). repeat split; lia.
+  - repeat split; assumption.
   - repeat split; assumption.
   - unfold Inv3. rewrite (add_log_pops s e H). repeat split; assumption.
   - (* pop *) rewrite H in *. inversion HS as [|? ? HS' Hhd]; subst. inversion HF as [|? ? Hit HF']; subst.
@@ -485,7 +506,9 @@ Proof.
   unfold Inv5. intros H HP. inversion HP; subst; clear HP; simpl; try assumption.
   - unfold cancel_id. destruct (r <? next_id s)%nat; simpl; assumption.
   - eapply mono_weaken; eassumption.
-  - destruct e; simpl in *; try assumption; try tauto; subst; split; try lia; assumption.
+  - destruct e; simpl in *; try assumption; try tauto.
+    + destruct H0 as [-> _]. split; [lia | assumption].
+    + subst. split; [lia | assumption].
   - pose proof (pop_clock_ge _ _ _ _ H1). repeat split; try lia. assumption.
 Qed.
 
@@ -1120,4 +1143,166 @@ Proof.
   rewrite E1, E2, He. simpl.
   destruct (advance_loop_calm sl fuel t (set_enabled s true)) as (s' & R & N & L & T1 & T2 & Cq & NPO); auto.
   exists s'. repeat split; auto. intro Hsl. apply T2; [assumption|]. simpl. lia.
+Qed.
+
+(* ---- B9: an action is skipped only if its disposable was disposed ------ *)
+
+Fixpoint skip_only_if_cancelled (l : list event) : Prop :=
+  match l with
+  | [] => True
+  | e :: older =>
+      match e with
+      | EPop r => r_ran r = false -> In (ECancel (r_id r)) older
+      | _ => True
+      end /\ skip_only_if_cancelled older
+  end.
+
+Definition Inv9 (s : st) : Prop :=
+  (forall id, In id (cancelled s) -> In (ECancel id) (log s)) /\ skip_only_if_cancelled (log s).
+
+Lemma memb_true n l : memb n l = true -> In n l.
+Proof.
+  unfold memb. intro H. apply existsb_exists in H. destruct H as (x & Hx & E).
+  apply Nat.eqb_eq in E. subst. assumption.
+Qed.
+
+Lemma inv9_prim s s' : Inv9 s -> prim s s' -> Inv9 s'.
+Proof.
+  intros [H1 H2] HP. inversion HP; subst; clear HP; try (split; assumption).
+  - unfold cancel_id. destruct (r <? next_id s)%nat; [|split; assumption]. split; simpl.
+    + intros id [E|Hin]; [left; congruence | right; auto].
+    + split; [exact I | assumption].
+  - split; simpl.
+    + intros id Hin. right. auto.
+    + split; [|assumption]. destruct e; try exact I. destruct H.
+  - split; simpl.
+    + intros id Hin. right. auto.
+    + split; [|assumption]. intros Hran. apply Bool.negb_false_iff in Hran. apply memb_true in Hran. auto.
+Qed.
+
+Theorem inv9_run c fuel c0 cs : Inv9 (state_of (run c fuel (init c0) cs)).
+Proof. apply (run_invariant Inv9 inv9_prim). split; simpl; [tauto | exact I]. Qed.
+
+(* ================================================================== *)
+(* Part D.  Statements about whole histories (used by Props/C28, C29)   *)
+
+Section Histories.
+Variables (c : cfg) (fuel : nat) (c0 : Z) (h : list tcmd).
+Let s := state_of (run c fuel (init c0) h).
+
+(* dequeued items, newest first; the k-th item dequeued has r_idx = k *)
+Lemma hist_pop_index : map r_idx (pops (log s)) = desc (npops s).
+Proof. apply inv8_run. Qed.
+
+(* RUN ORDER.  For any two dequeued items a (earlier) and b (later): if b was
+   already in the queue when a was dequeued, then a precedes b in the order
+   (due time, then order of the schedule calls). *)
+Lemma hist_run_order :
+  ForallOrdPairs (fun b a => queued_at_pop_of b a -> plt a b) (pops (log s)).
+Proof. pose proof (inv_run c fuel c0 h) as (_ & (_ & _ & H) & _). exact H. Qed.
+
+(* ... in particular, if no action is scheduled in the past, the sequence of
+   dequeued items is strictly increasing in (due time, scheduling order):
+   non-decreasing due times, first-scheduled-first among equal due times. *)
+Lemma hist_due_order :
+  Forall (fun a => r_sclk a <= r_due a) (pops (log s)) ->
+  ForallOrdPairs (fun b a => plt a b) (pops (log s)).
+Proof. apply sorted_if_no_past. apply inv_run. Qed.
+
+Lemma hist_due_order_runs :
+  Forall (fun a => r_sclk a <= r_due a) (pops (log s)) ->
+  ForallOrdPairs (fun b a => plt a b) (filter r_ran (pops (log s))).
+Proof. intro H. apply FOP_filter. apply hist_due_order. exact H. Qed.
+
+(* CLOCK AT RUN *)
+Lemma hist_clock_at_run : Forall rec_ok (pops (log s)).
+Proof. pose proof (inv_run c fuel c0 h) as (_ & _ & _ & H & _). exact H. Qed.
+
+(* CLOCK MONOTONE: every clock reading (at each run, periodic tick and after each
+   top-level call) is >= every earlier one, and <= the final clock *)
+Lemma hist_clock_monotone :
+  StronglySorted Z.ge (readings (log s)) /\ Forall (fun k => k <= clock s) (readings (log s)).
+Proof.
+  pose proof (inv_run c fuel c0 h) as (_ & _ & _ & _ & H & _).
+  destruct (mono_readings _ _ H). split; assumption.
+Qed.
+
+(* CANCELLED NEVER RUN, and only cancelled ones are skipped *)
+Lemma hist_cancelled_never_run : no_run_after_cancel (log s).
+Proof. pose proof (inv_run c fuel c0 h) as (_ & _ & _ & _ & _ & [_ H] & _). exact H. Qed.
+
+Lemma hist_skip_only_if_cancelled : skip_only_if_cancelled (log s).
+Proof. apply inv9_run. Qed.
+
+(* every scheduled action is dequeued at most once, and is either still queued
+   or has been dequeued *)
+Lemma hist_conservation :
+  NoDup (map i_id (queue s) ++ map r_id (pops (log s))) /\
+  forall id, (id < next_id s)%nat <->
+             In id (map i_id (queue s)) \/ In id (map r_id (pops (log s))).
+Proof.
+  pose proof (inv_run c fuel c0 h) as (_ & _ & _ & _ & _ & _ & [H1 H2]). split; [exact H1|].
+  intro id. specialize (H2 id). unfold ids in H2. rewrite in_app_iff in H2. unfold s. tauto.
+Qed.
+
+Lemma hist_queue_sorted : StronglySorted klt (queue s).
+Proof. pose proof (inv_run c fuel c0 h) as ([H _] & _). exact H. Qed.
+
+(* ADVANCE_TO from any state a history can reach *)
+Lemma hist_advance_to sl fuel' t :
+  enabled s = false -> clock s < t -> calm_q sl (queue s) -> (qsize (queue s) <= fuel')%nat ->
+  exists s', advance_to fuel' s t = Finished s' /\ enabled s' = false /\
+             Forall (fun it => t < i_due it) (queue s') /\
+             t <= clock s' /\ (sl = false -> clock s' = t) /\
+             calm_q sl (queue s') /\ new_pops_ok s s' t.
+Proof. apply advance_to_calm. pose proof (inv_run c fuel c0 h) as (H & _). exact H. Qed.
+
+(* START from any state a history can reach: returns with an empty queue, and
+   every action ever scheduled has been dequeued *)
+Lemma hist_start_drains sl c' fuel' :
+  c_prop_bump c' = false ->
+  enabled s = false -> calm_q sl (queue s) -> (qsize (queue s) <= fuel')%nat ->
+  exists s', start c' fuel' s = Finished s' /\ enabled s' = false /\ queue s' = [] /\
+             forall id, (id < next_id s')%nat -> In id (map r_id (pops (log s'))).
+Proof.
+  intros Hc He Hq Hf.
+  destruct (start_calm sl c' fuel' s Hc He Hq Hf) as (s' & E & A & B).
+  exists s'. repeat split; auto.
+  assert (HI : Inv s').
+  { eapply inv_steps; [|apply inv_run]. pose proof (start_steps c' fuel' s) as H. rewrite E in H. exact H. }
+  destruct HI as (_ & _ & _ & _ & _ & _ & [_ H2]).
+  intros id Hid. apply H2 in Hid. unfold ids in Hid. rewrite B in Hid. exact Hid.
+Qed.
+
+End Histories.
+
+(* advance_to with the target equal to the clock is a no-op, whatever is queued *)
+Lemma advance_to_now_noop fuel s : advance_to fuel s (clock s) = Finished s.
+Proof.
+  unfold advance_to. rewrite Z.ltb_irrefl, Z.eqb_refl. reflexivity.
+Qed.
+
+Lemma advance_to_past_raises fuel s t : t < clock s -> advance_to fuel s t = Raised AOOR s.
+Proof. intro H. unfold advance_to. apply Z.ltb_lt in H. rewrite H. reflexivity. Qed.
+
+(* sleep *)
+Lemma sleep_spec s d : 0 <= d ->
+  exec_cmd s (SSleep d) = BOk (set_clock s (clock s + d)).
+Proof. intro H. simpl. assert (E : d <? 0 = false) by (apply Z.ltb_ge; lia). rewrite E. reflexivity. Qed.
+
+Lemma sleep_negative_raises s d : d < 0 ->
+  exists s', exec_cmd s (SSleep d) = BRaise AOOR s' /\ clock s' = clock s /\ queue s' = queue s.
+Proof. intro H. simpl. apply Z.ltb_lt in H. rewrite H. eexists. repeat split. Qed.
+
+(* termination from the initial state *)
+Theorem history_terminates k fuel c0 h :
+  forallb noper_t h = true -> (hsize h <= fuel)%nat ->
+  exists s', run (Cfg k false) fuel (init c0) h = RDone s'.
+Proof. intros H1 H2. apply run_terminates; simpl; auto. constructor. Qed.
+
+(* a drained scheduler can be started again (at no cost) *)
+Lemma start_drained c fuel s : enabled s = false -> queue s = [] ->
+  start c fuel s = Finished (set_enabled (set_enabled s true) false).
+Proof.
+  intros He Hq. unfold start. rewrite He. destruct fuel; simpl; rewrite Hq; reflexivity.
 Qed.
